@@ -690,7 +690,8 @@ theorem mux_spec (rw sw sel : Nat) (ins : List Nat) (hsw : 1 ≤ sw) (hlen : sw 
     unfold Leaf.mux2
     have : sel = 0 ∨ sel = 1 := by omega
     rcases this with h | h <;> subst h <;> simp
-  · simp only [h1, if_false]
+  · have h0 : ¬ sw = 0 := by omega
+    simp only [h1, h0, if_false]
     have hl : ins.length = 2 ^ sw := by rcases hlen with h | h; exact absurd h h1; exact h
     obtain ⟨k, rfl⟩ : ∃ k, sw = k + 1 := ⟨sw - 1, by omega⟩
     unfold Lib.bitsLSBF
